@@ -216,7 +216,7 @@ func (w *world) onlyConfigs(pos position, s, key string, sts []setting) {
 		}
 		for _, st := range sts {
 			sg := classify(s, st, single)
-			opts := st.opts(pos.sep)
+			opts := w.optsFor(st, pos.sep)
 			present := nameOnly != sg.index
 			want := int64(nameValue)
 			if sg.index {
